@@ -332,14 +332,14 @@ def decode_variable""")]),
         open_alos2.__defaults__[1]["records_per_chunk"] = backend_options["records_per_chunk"]
     root = io.open(path, **backend_options)""")]),
     ("c10_stage_in_tmp", "C10", "violation",
-     "the index is staged in the system temp dir and moved into place: opening writes outside "
-     "the user cache directory",
-     [(CA, """    local.write_text(encoded)""", """    import shutil
+     "a copy of the last index is kept in the system temp dir 'for diagnostics': opening writes "
+     "outside the user cache directory",
+     [(CA, """    local.write_text(encoded)""", """    local.write_text(encoded)
+    import os
     import tempfile
 
-    with tempfile.NamedTemporaryFile("w", suffix=".index", delete=False) as f:
-        f.write(encoded)
-    shutil.move(f.name, local)""")]),
+    with open(os.path.join(tempfile.gettempdir(), "ceos-alos2-last-index.json"), "w") as f:
+        f.write(encoded)""")]),
     ("c09_decode_lenient_prefix", "C09", "violation",
      "a torn index whose text ends inside the top-level object is 'completed' and used",
      [(CA, """    try:
